@@ -111,6 +111,7 @@ func runSched(kv map[string]string) string {
 	var ymu sync.Mutex
 	peer := startAutoPeer(raw, cfg.Role, true)
 	ctx, cancel := context.WithTimeout(context.Background(), 60*time.Second)
+	pb := &panicBox{onPanic: cancel}
 	defer cancel()
 	c.CloseRead(ctx)
 	plans := strings.Split(kv["plan"], "/")
@@ -137,6 +138,7 @@ func runSched(kv map[string]string) string {
 		wg.Add(1)
 		go func(w int, plan string) {
 			defer wg.Done()
+			defer pb.guard()
 			goids[w] = websocket.VerifGoID()
 			<-start
 			for seq, op := range strings.Split(plan, ",") {
@@ -182,6 +184,7 @@ func runSched(kv map[string]string) string {
 	wg.Add(1)
 	go func() {
 		defer wg.Done()
+		defer pb.guard()
 		goids[pi] = websocket.VerifGoID()
 		<-start
 		for k := 0; k < npings; k++ {
@@ -202,6 +205,7 @@ func runSched(kv map[string]string) string {
 	wg.Add(1)
 	go func() {
 		defer wg.Done()
+		defer pb.guard()
 		goids[ci] = websocket.VerifGoID()
 		<-start
 		if cl[0] == "none" {
@@ -231,7 +235,14 @@ func runSched(kv map[string]string) string {
 	select {
 	case <-done:
 	case <-time.After(40 * time.Second):
+		if m := pb.get(); m != "" {
+			return m
+		}
 		return "hang=writers"
+	}
+	if m := pb.get(); m != "" {
+		c.CloseNow()
+		return m
 	}
 	closeErr := c.CloseNow()
 	_ = closeErr
